@@ -6,7 +6,14 @@ same input gives the same verdict on every machine and under any load.
 Counted events: PY_START (every Python function entry), JUMP (every backward/forward unconditional jump, i.e. every
 loop iteration) and BRANCH.  A Python-level loop cannot iterate without a JUMP or BRANCH event, a recursion cannot
 descend without PY_START.  (C-level loops - e.g. bytes * n - are not counted; memory errors surface as exceptions.)
+
+Optional second bound `cpu_seconds` for work that happens inside ONE C call and therefore produces no events (a
+backtracking regular expression is the realistic case in a pure-Python parser): ITIMER_VIRTUAL counts the user CPU time of
+this process only (not wall time, so machine load does not matter); callers set it orders of magnitude above the time the
+event budget itself can take, so the verdict for Python-level work is still the deterministic event count.  The `re`
+engine polls for signals while matching, so the handler's exception interrupts it.
 """
+import signal
 import sys
 
 mon = sys.monitoring
@@ -17,10 +24,17 @@ class BudgetExceeded(BaseException):
     """Derives from BaseException so that 'except Exception' blocks in the code under test cannot swallow it."""
 
 
-def run_with_budget(fn, budget):
-    """Returns (status, value, events): status in {'ok', 'exc', 'budget'}; value = result / exception."""
+def run_with_budget(fn, budget, cpu_seconds=None):
+    """Returns (status, value, events): status in {'ok', 'exc', 'budget'}; value = result / exception
+    (value == 'cpu' when status == 'budget' because the CPU-time bound, not the event bound, was hit)."""
     count = [0]
     ev = mon.events
+    old = None
+    if cpu_seconds:
+        def on_alarm(_s, _f):
+            raise BudgetExceeded("cpu")
+        old = signal.signal(signal.SIGVTALRM, on_alarm)
+        signal.setitimer(signal.ITIMER_VIRTUAL, cpu_seconds)
 
     def tick(*_a):
         count[0] += 1
@@ -41,13 +55,16 @@ def run_with_budget(fn, budget):
         try:
             r = fn()
             return "ok", r, count[0]
-        except BudgetExceeded:
-            return "budget", None, count[0]
+        except BudgetExceeded as e:
+            return "budget", ("cpu" if e.args == ("cpu",) else None), count[0]
         except RecursionError as e:
             return "exc", e, count[0]
         except Exception as e:     # noqa
             return "exc", e, count[0]
     finally:
+        if cpu_seconds:
+            signal.setitimer(signal.ITIMER_VIRTUAL, 0)
+            signal.signal(signal.SIGVTALRM, old if old is not None else signal.SIG_DFL)
         mon.set_events(TOOL, 0)
         mon.register_callback(TOOL, ev.PY_START, None)
         mon.register_callback(TOOL, ev.JUMP, None)
